@@ -2,3 +2,4 @@ import MtailVerif.Props.C08
 import MtailVerif.Props.C15
 import MtailVerif.Props.C09
 import MtailVerif.Props.C21
+import MtailVerif.Props.C10
